@@ -24,7 +24,7 @@ MANIFEST = {
                   "goroutine interleavings as event orders; the system is assumed running (while stopping, dead letters are best-effort by "
                   "design: drop_when_down). Payload decoding and address parsing on the remote paths are inputs (C25, C26). "
                   "Tie: event scripts run on a real actor system with loop-back remoting (gated NonBlockingBoundedMailbox actor, an actor "
-                  "calling Unhandled, the server-side remote-tell handler, real RemoteTell to a missing actor, the real coalesced-failure "
+                  "calling Unhandled, the server-side remote-tell handler (missing target; target in the middle of passivation), real RemoteTell to a missing actor, the real coalesced-failure "
                   "hand-off and drain loop, concurrent blocks), dead letters read from the events stream after a count-request quiescence "
                   "marker, counts read through ActorSystem.Metric and the per-receiver count request; compared with the model's prediction.",
     "technique": "Lean 4 proof (inductive invariant over event histories, multiset accounting) on a hand-written model + "
@@ -35,7 +35,7 @@ TRUSTED = [
     "payload decoding (C25) and address.Parse (C26) on the remote paths are inputs of the model",
     "the harness's quiescence markers: Ask round-trips through the same mailboxes and a count request served after the dead letters enqueued before it",
 ]
-RULE = ("event scripts of 1-8 events over full / unh / unhps / rmiss / rbadr / rbadp / rtell / batch / mq+mbatch+mdrain / count / par; "
+RULE = ("event scripts of 1-8 events over full / unh / unhps / rmiss / rpass / rbadr / rbadp / rtell / batch / mq+mbatch+mdrain / count / par; "
         "mailbox capacities 1-9; non-trivial = at least one dead letter published; distinct by (case, canonical output)")
 
 SENDERS = ["A", "B", "none"]
@@ -66,7 +66,7 @@ class Gen:
 
     def event(self, manual, allow_par=True, heavy=True):
         r = self.rng
-        kinds = ["full", "unh", "rmiss", "rmiss", "unhps", "rbadr", "rbadp", "count"]
+        kinds = ["full", "unh", "rmiss", "rmiss", "unhps", "rbadr", "rbadp", "count", "rpass"]
         if heavy:
             kinds += ["rtell", "batch"] if not manual else ["mbatch", "mbatch", "mdrain"]
         if allow_par and not manual and r.random() < 0.25:
@@ -86,6 +86,8 @@ class Gen:
             return "rmiss %s %s" % (r.choice(SENDERS + ["bad"]), self.ids(1, 3))
         if k == "unhps":
             return "unhps %d" % self.sentinel()
+        if k == "rpass":
+            return "rpass %d %s %s %s" % (self.sentinel(), r.choice("ib"), r.choice(SENDERS + ["bad"]), self.ids(1, 3))
         if k in ("rbadr", "rbadp"):
             return "%s %s" % (k, self.ids(1, 1))
         if k == "rtell":
@@ -132,6 +134,9 @@ def gen_cases(rng, tier):
         "sys 2 ; rtell 1 11,12 ; batch 2 g13,n14,r15,p16 ; count",
         "sys 5 ; par full A 1,2 | unh none 3,4 | rmiss B 5 | batch 1 g6 | rtell 2 7 ; count",
         "sys 1 ; count",
+        # a remote tell that arrives while its target is being passivated (idle target / target held in a long Receive)
+        "sys 2 ; rpass 1 b A 1,2 ; rpass 2 i none 3 ; count",
+        "sys 3 ; par rpass 1 b B 1 | unh A 2,3 | rmiss none 4 ; count",
     ]
     for _ in range(n):
         cases.append(gen_case(rng))
